@@ -122,6 +122,13 @@ M = [
  ("build_reply adds A records twice and no AAAA", 'simple-mdns/src/lib.rs', "r.match_qtype(TYPE::AAAA.into())", "r.match_qtype(TYPE::A.into())", 'fail:build_reply_source'),
  ("build_reply adds addresses of any class", 'simple-mdns/src/lib.rs', "                                && r.match_qclass(question.qclass)\n", "", 'untied:mdns.build_reply'),
  ("build_reply answers an empty reply", 'simple-mdns/src/lib.rs', "    if !reply_packet.answers.is_empty() {\n        Some((reply_packet, unicast_response))\n    } else {\n        None\n    }", "    Some((reply_packet, unicast_response))", 'untied:mdns.build_reply'),
+ ("sync discovery reads the authority section instead of the additional one", 'simple-mdns/src/sync_discovery/service_discovery.rs', "        .chain(packet.additional_records)\n        .filter(|aw| aw.name.ne(full_name)", "        .chain(packet.name_servers)\n        .filter(|aw| aw.name.ne(full_name)", 'fail:ingest_source'),
+ ("tokio discovery keeps its own instance", 'simple-mdns/src/async_discovery/service_discovery.rs', "        .filter(|aw| aw.name.ne(full_name) && aw.name.is_subdomain_of(service_name))", "        .filter(|aw| aw.name.is_subdomain_of(service_name))", 'fail:ingest_source'),
+ ("sync discovery keeps names outside the service", 'simple-mdns/src/sync_discovery/service_discovery.rs', "        .filter(|aw| aw.name.ne(full_name) && aw.name.is_subdomain_of(service_name))", "        .filter(|aw| aw.name.ne(full_name))", 'fail:ingest_source'),
+ ("tokio discovery reads three sections", 'simple-mdns/src/async_discovery/service_discovery.rs', "        .chain(packet.additional_records)\n        .filter(|aw| aw.name.ne(full_name)", "        .chain(packet.name_servers)\n        .chain(packet.additional_records)\n        .filter(|aw| aw.name.ne(full_name)", 'untied:mdns.ingest:tokio'),
+ ("from_records keeps attributes with an empty key", 'simple-mdns/src/instance_information.rs', "                simple_dns::rdata::RData::TXT(txt) => attributes.extend(\n                    // an empty TXT record is sent as a single empty string, which is not an attribute\n                    txt.attributes().into_iter().filter(|(key, _)| !key.is_empty()),\n                ),", "                simple_dns::rdata::RData::TXT(txt) => attributes.extend(txt.attributes()),", 'fail:from_records_source'),
+ ("from_records ignores AAAA records", 'simple-mdns/src/instance_information.rs', "                simple_dns::rdata::RData::AAAA(aaaa) => {\n                    ip_addresses.insert(std::net::Ipv6Addr::from(aaaa.address).into());\n                }\n", "", 'fail:from_records_source'),
+ ("from_records takes the priority for the port", 'simple-mdns/src/instance_information.rs', "                    ports.insert(srv.port);", "                    ports.insert(srv.priority);", 'untied:mdns.from_records'),
  ("mdns refresh in millis", 'simple-mdns/src/resource_record_manager.rs', 'added + Duration::from_secs(ttl / 2)', 'added + Duration::from_millis(ttl / 2)', 'untied:mdns.expiration'),
 ]
 
